@@ -43,7 +43,9 @@ HIST = H.s_history(max_tests=4, with_control=False, with_tags=False, with_time=F
 def s_case(draw):
     base = draw(st.sampled_from(BASES))
     wraps = draw(st.lists(st.sampled_from(WRAPS), max_size=2)) if base != "ETSD" else []
-    ff = draw(st.sampled_from(["off", "before", "after", "after", "before2"]))
+    ff = draw(st.sampled_from(["off", "before", "after", "after", "before2", "after2"]))
+    if ff == "after2" and base != "Multi":
+        ff = "after"
     if base in ("ETSD", "ETOD-py26", "Multi-py26", "ETOD-py27") and ff in ("before", "before2"):
         ff = "after"
     if ff == "before2" and base != "Multi":
@@ -133,6 +135,8 @@ def build(spec):
         layers.insert(0, r)
     if spec["failfast"] == "after":
         r.failfast = True
+    if spec["failfast"] == "after2":
+        made[1].failfast = True        # asked of the second constituent only, once it is wrapped
     build.siblings = siblings
     build.layers = layers          # outermost first
     return r, under, text
@@ -195,6 +199,10 @@ def run_case(spec):
                     vs.append(V("stop", "constituent-not-stopped", "stop() on constituent %d did not reach its underlying result (after %s)" % (ui, step)))
                 continue
             if child_stopped and not want_stop:
+                continue
+            if spec["failfast"] == "after2" and not stopped and ui != 1:
+                # fail-fast was asked of the second constituent alone: until a startTestRun has spread the flag, the
+                # other constituents were never asked to stop at a failure (the multiplexer says stop because one did)
                 continue
             if bool(u.shouldStop) != want_stop and not (bool(ss) != want_stop):
                 vs.append(V("stop", "underlying-%s" % spec["base"], "an underlying result has shouldStop=%r, outer says %r after %s" % (u.shouldStop, ss, step)))
